@@ -338,9 +338,7 @@ def rewrite_bulk_eval(fe, trace, ty):
     trace.fire('R-slotarray', n + 1)
     # R-copyprefix: `D[0..size].copy_from_slice(S)` -> `copy_prefix(&mut D, S, size)`
     fe, n = re.subn(r'(self\.0\.(?:out|slots)\[\w+ as usize\])\[0\.\.size\]\s*\.copy_from_slice\(([^;]*)\);', r'copy_prefix(&mut \1, \2, size);   // R-copyprefix', fe)
-    if n != 2:
-        raise ExtractError('R-copyprefix: expected 2 copy_from_slice sites, found %d' % n)
-    trace.fire('R-copyprefix', n)
+    trace.fire('R-copyprefix', n)   # zero or more sites: an edit that copies differently is verified as edited (or leaves the subset: that function alone is undecided)
     if ty == 'f32':
         fe, n = re.subn(r'= -(self\.0\.slots\[\w+ as usize\]\[i\]);', r'= neg_(\1);', fe)
         trace.fire('R-neg', n)
